@@ -30,7 +30,7 @@ Att == 1..MaxAttempts
 
 VARIABLES
   att,        \* number of Stream calls so far (the current / last attempt)
-  spc,        \* caller goroutine: idle connect set dump spawn select handler return
+  spc,        \* caller goroutine: idle connect set dump spawn select handler closing
   net,        \* packets the master has still to send on the current connection
   sock,       \* [Att -> open | broken (by master/network) | closed (by client) | none]
   ctxDone,    \* [Att -> BOOLEAN] the attempt's context was cancelled
@@ -49,10 +49,11 @@ VARIABLES
   hpc,        \* handler: idle | running   (called from within Stream only)
   epc,        \* Error() observer: idle | recv
   ecalls,     \* Error() calls made since the last return
+  retRes, retWhy, \* what parseEvents returned (while Stream runs its deferred close)
   eres        \* result of the first Error() call after the last return: none nil err:<reason>
 
 vars == <<att, spc, net, sock, ctxDone, rpc, held, errBuf, errClosed, evClosed, doneClosed, sErrChan,
-          result, cause, terminal, pending, cancelledAtReturn, hpc, epc, ecalls, eres>>
+          result, cause, terminal, pending, cancelledAtReturn, hpc, epc, ecalls, eres, retRes, retWhy>>
 
 Init ==
   /\ att = 0 /\ spc = "idle" /\ net = <<>> /\ sock = [a \in Att |-> "none"]
@@ -64,7 +65,7 @@ Init ==
   /\ result = [a \in Att |-> "none"] /\ cause = [a \in Att |-> "none"] /\ terminal = [a \in Att |-> "none"]
   /\ pending = [a \in Att |-> "none"]
   /\ cancelledAtReturn = [a \in Att |-> FALSE]
-  /\ hpc = "idle" /\ epc = "idle" /\ ecalls = 0 /\ eres = "none"
+  /\ hpc = "idle" /\ epc = "idle" /\ ecalls = 0 /\ eres = "none" /\ retRes = "none" /\ retWhy = "none"
 
 (***************************************************************************)
 (* Caller goroutine.                                                       *)
@@ -75,6 +76,7 @@ Call ==   \* Stream(ctx, handler) is called (the previous call has returned; Err
   /\ spc' = "connect"
   /\ sErrChan' = IF "noErrChanReset" \in Defects THEN sErrChan ELSE 0
   /\ ecalls' = 0 /\ eres' = "none"
+  /\ UNCHANGED <<retRes, retWhy>>
   /\ UNCHANGED <<net, sock, ctxDone, rpc, held, errBuf, errClosed, evClosed, doneClosed, result, cause, terminal, pending, cancelledAtReturn, hpc, epc>>
 
 ReturnWith(res, why) ==
@@ -88,31 +90,31 @@ ConnectOk ==
   /\ spc = "connect" /\ ~ctxDone[att]
   /\ \E p \in PktSeqs : net' = p
   /\ sock' = [sock EXCEPT ![att] = "open"] /\ spc' = "set"
-  /\ UNCHANGED <<att, ctxDone, rpc, held, errBuf, errClosed, evClosed, doneClosed, sErrChan, result, cause, terminal, pending, cancelledAtReturn, hpc, epc, ecalls, eres>>
+  /\ UNCHANGED <<att, ctxDone, rpc, held, errBuf, errClosed, evClosed, doneClosed, sErrChan, result, cause, terminal, pending, cancelledAtReturn, hpc, epc, ecalls, eres, retRes, retWhy>>
 ConnectFail ==
   /\ spc = "connect"
   /\ ReturnWith("err", "connect")
-  /\ UNCHANGED <<att, net, sock, ctxDone, rpc, held, errBuf, errClosed, evClosed, doneClosed, sErrChan, terminal, pending, hpc, epc, ecalls, eres>>
+  /\ UNCHANGED <<att, net, sock, ctxDone, rpc, held, errBuf, errClosed, evClosed, doneClosed, sErrChan, terminal, pending, hpc, epc, ecalls, eres, retRes, retWhy>>
 
 \* SET @master_binlog_checksum: on failure newSlaveConnection closes the connection and Stream returns
 SendSetOk ==
   /\ spc = "set" /\ sock[att] = "open" /\ spc' = "dump"
-  /\ UNCHANGED <<att, net, sock, ctxDone, rpc, held, errBuf, errClosed, evClosed, doneClosed, sErrChan, result, cause, terminal, pending, cancelledAtReturn, hpc, epc, ecalls, eres>>
+  /\ UNCHANGED <<att, net, sock, ctxDone, rpc, held, errBuf, errClosed, evClosed, doneClosed, sErrChan, result, cause, terminal, pending, cancelledAtReturn, hpc, epc, ecalls, eres, retRes, retWhy>>
 SendSetFail ==
   /\ spc = "set"
   /\ sock' = [sock EXCEPT ![att] = "closed"] /\ doneClosed' = [doneClosed EXCEPT ![att] = TRUE]
   /\ ReturnWith("err", "connect")
-  /\ UNCHANGED <<att, net, ctxDone, rpc, held, errBuf, errClosed, evClosed, sErrChan, terminal, pending, hpc, epc, ecalls, eres>>
+  /\ UNCHANGED <<att, net, ctxDone, rpc, held, errBuf, errClosed, evClosed, sErrChan, terminal, pending, hpc, epc, ecalls, eres, retRes, retWhy>>
 
 \* COM_BINLOG_DUMP: on failure Stream returns (deferred close)
 SendDumpOk ==
   /\ spc = "dump" /\ sock[att] = "open" /\ spc' = "spawn"
-  /\ UNCHANGED <<att, net, sock, ctxDone, rpc, held, errBuf, errClosed, evClosed, doneClosed, sErrChan, result, cause, terminal, pending, cancelledAtReturn, hpc, epc, ecalls, eres>>
+  /\ UNCHANGED <<att, net, sock, ctxDone, rpc, held, errBuf, errClosed, evClosed, doneClosed, sErrChan, result, cause, terminal, pending, cancelledAtReturn, hpc, epc, ecalls, eres, retRes, retWhy>>
 SendDumpFail ==
   /\ spc = "dump"
   /\ sock' = [sock EXCEPT ![att] = "closed"] /\ doneClosed' = [doneClosed EXCEPT ![att] = TRUE]
   /\ ReturnWith("err", "connect")
-  /\ UNCHANGED <<att, net, ctxDone, rpc, held, errBuf, errClosed, evClosed, sErrChan, terminal, pending, hpc, epc, ecalls, eres>>
+  /\ UNCHANGED <<att, net, ctxDone, rpc, held, errBuf, errClosed, evClosed, sErrChan, terminal, pending, hpc, epc, ecalls, eres, retRes, retWhy>>
 
 \* the reader goroutine is started and s.errChan = conn.errChan
 Spawn ==
@@ -120,13 +122,20 @@ Spawn ==
   /\ rpc' = [rpc EXCEPT ![att] = "read"]
   /\ sErrChan' = att
   /\ spc' = "select"
-  /\ UNCHANGED <<att, net, sock, ctxDone, held, errBuf, errClosed, evClosed, doneClosed, result, cause, terminal, pending, cancelledAtReturn, hpc, epc, ecalls, eres>>
+  /\ UNCHANGED <<att, net, sock, ctxDone, held, errBuf, errClosed, evClosed, doneClosed, result, cause, terminal, pending, cancelledAtReturn, hpc, epc, ecalls, eres, retRes, retWhy>>
+
+\* parseEvents returned (res, why): Stream is about to run its deferred conn.close() and return
+CloseAndReturn(res, why) ==
+  /\ spc' = "closing"
+  /\ retRes' = res /\ retWhy' = why
 
 \* deferred conn.close() + return: closes done, closes the socket (which unblocks a reader inside ReadPacket)
-CloseAndReturn(res, why) ==
+DeferredClose ==
+  /\ spc = "closing"
   /\ doneClosed' = [doneClosed EXCEPT ![att] = TRUE]
   /\ sock' = IF "noDeferredClose" \in Defects THEN sock ELSE [sock EXCEPT ![att] = "closed"]
-  /\ ReturnWith(res, why)
+  /\ ReturnWith(retRes, retWhy)
+  /\ UNCHANGED <<att, net, ctxDone, rpc, held, errBuf, errClosed, evClosed, sErrChan, terminal, pending, hpc, epc, ecalls, eres, retRes, retWhy>>
 
 \* select: case ev, ok = <-events  (rendezvous with the reader's hand-off)
 ParserTakesEvent ==
@@ -134,33 +143,33 @@ ParserTakesEvent ==
   /\ LET e == held[att] IN
        /\ held' = [held EXCEPT ![att] = "none"]
        /\ rpc' = [rpc EXCEPT ![att] = "read"]
-       /\ IF e = "commit" THEN spc' = "handler" /\ hpc' = "running" /\ UNCHANGED <<doneClosed, sock, result, cause, cancelledAtReturn>>
+       /\ IF e = "commit" THEN spc' = "handler" /\ hpc' = "running" /\ UNCHANGED <<retRes, retWhy>>
           ELSE IF e = "bad" THEN CloseAndReturn("err", "decode") /\ UNCHANGED hpc
-          ELSE UNCHANGED <<spc, hpc, doneClosed, sock, result, cause, cancelledAtReturn>>
-  /\ UNCHANGED <<att, net, ctxDone, errBuf, errClosed, evClosed, sErrChan, terminal, pending, epc, ecalls, eres>>
+          ELSE UNCHANGED <<spc, hpc, retRes, retWhy>>
+  /\ UNCHANGED <<att, net, sock, ctxDone, errBuf, errClosed, evClosed, doneClosed, sErrChan, result, cause, terminal, pending, cancelledAtReturn, epc, ecalls, eres>>
 
 \* select: events channel closed -> return pos, nil
 ParserSeesClosed ==
   /\ spc = "select" /\ evClosed[att]
   /\ CloseAndReturn("nil", "closed")
-  /\ UNCHANGED <<att, net, ctxDone, rpc, held, errBuf, errClosed, evClosed, sErrChan, terminal, pending, hpc, epc, ecalls, eres>>
+  /\ UNCHANGED <<att, net, sock, ctxDone, rpc, held, errBuf, errClosed, evClosed, doneClosed, sErrChan, result, cause, terminal, pending, cancelledAtReturn, hpc, epc, ecalls, eres>>
 
 \* select: case <-ctx.Done() -> return pos, nil
 ParserSeesCtx ==
   /\ spc = "select" /\ ctxDone[att]
   /\ CloseAndReturn("nil", "cancel")
-  /\ UNCHANGED <<att, net, ctxDone, rpc, held, errBuf, errClosed, evClosed, sErrChan, terminal, pending, hpc, epc, ecalls, eres>>
+  /\ UNCHANGED <<att, net, sock, ctxDone, rpc, held, errBuf, errClosed, evClosed, doneClosed, sErrChan, result, cause, terminal, pending, cancelledAtReturn, hpc, epc, ecalls, eres>>
 
 \* the handler returns nil: back to the loop; or an error: Stream returns it
 HandlerOk ==
   /\ spc = "handler" /\ hpc = "running"
   /\ hpc' = "idle" /\ spc' = "select"
-  /\ UNCHANGED <<att, net, sock, ctxDone, rpc, held, errBuf, errClosed, evClosed, doneClosed, sErrChan, result, cause, terminal, pending, cancelledAtReturn, epc, ecalls, eres>>
+  /\ UNCHANGED <<att, net, sock, ctxDone, rpc, held, errBuf, errClosed, evClosed, doneClosed, sErrChan, result, cause, terminal, pending, cancelledAtReturn, epc, ecalls, eres, retRes, retWhy>>
 HandlerErr ==
   /\ spc = "handler" /\ hpc = "running"
   /\ hpc' = "idle"
   /\ CloseAndReturn("err", "handler")
-  /\ UNCHANGED <<att, net, ctxDone, rpc, held, errBuf, errClosed, evClosed, sErrChan, terminal, pending, epc, ecalls, eres>>
+  /\ UNCHANGED <<att, net, sock, ctxDone, rpc, held, errBuf, errClosed, evClosed, doneClosed, sErrChan, result, cause, terminal, pending, cancelledAtReturn, epc, ecalls, eres>>
 
 (***************************************************************************)
 (* Reader goroutine of attempt a.                                          *)
@@ -180,17 +189,17 @@ ReaderPublish(a) ==
   /\ rpc[a] = "pub"
   /\ errBuf' = [errBuf EXCEPT ![a] = IF pending[a] # "none" THEN Append(@, pending[a]) ELSE @]
   /\ rpc' = [rpc EXCEPT ![a] = "closeErr"]
-  /\ UNCHANGED <<att, spc, net, sock, ctxDone, held, errClosed, evClosed, doneClosed, sErrChan, result, cause, terminal, cancelledAtReturn, hpc, epc, ecalls, eres, pending>>
+  /\ UNCHANGED <<att, spc, net, sock, ctxDone, held, errClosed, evClosed, doneClosed, sErrChan, result, cause, terminal, cancelledAtReturn, hpc, epc, ecalls, eres, retRes, retWhy, pending>>
 ReaderCloseErr(a) ==
   /\ rpc[a] = "closeErr"
   /\ errClosed' = [errClosed EXCEPT ![a] = TRUE]
   /\ rpc' = [rpc EXCEPT ![a] = IF "closeEventsFirst" \in Defects THEN "exit" ELSE "closeEv"]
-  /\ UNCHANGED <<att, spc, net, sock, ctxDone, held, errBuf, evClosed, doneClosed, sErrChan, result, cause, terminal, cancelledAtReturn, hpc, epc, ecalls, eres, pending>>
+  /\ UNCHANGED <<att, spc, net, sock, ctxDone, held, errBuf, evClosed, doneClosed, sErrChan, result, cause, terminal, cancelledAtReturn, hpc, epc, ecalls, eres, retRes, retWhy, pending>>
 ReaderCloseEv(a) ==
   /\ rpc[a] = "closeEv"
   /\ evClosed' = [evClosed EXCEPT ![a] = TRUE]
   /\ rpc' = [rpc EXCEPT ![a] = IF "closeEventsFirst" \in Defects THEN "pub" ELSE "exit"]
-  /\ UNCHANGED <<att, spc, net, sock, ctxDone, held, errBuf, errClosed, doneClosed, sErrChan, result, cause, terminal, cancelledAtReturn, hpc, epc, ecalls, eres, pending>>
+  /\ UNCHANGED <<att, spc, net, sock, ctxDone, held, errBuf, errClosed, doneClosed, sErrChan, result, cause, terminal, cancelledAtReturn, hpc, epc, ecalls, eres, retRes, retWhy, pending>>
 
 \* ReadPacket returns: a packet, or an error when the connection is broken or closed
 ReaderRead(a) ==
@@ -205,19 +214,19 @@ ReaderRead(a) ==
      \/ /\ sock[a] \in {"broken", "closed"}
         /\ ReaderExit(a, IF sock[a] = "broken" THEN "transport" ELSE "close", TRUE)
         /\ UNCHANGED <<net, held>>
-  /\ UNCHANGED <<att, spc, sock, ctxDone, doneClosed, sErrChan, result, cause, cancelledAtReturn, hpc, epc, ecalls, eres>>
+  /\ UNCHANGED <<att, spc, sock, ctxDone, doneClosed, sErrChan, result, cause, cancelledAtReturn, hpc, epc, ecalls, eres, retRes, retWhy>>
 
 \* select at the hand-off: case <-ctx.Done()
 ReaderSeesCtx(a) ==
   /\ rpc[a] = "handoff" /\ ctxDone[a]
   /\ ReaderExit(a, "cancel", TRUE)
-  /\ UNCHANGED <<att, spc, net, sock, ctxDone, held, doneClosed, sErrChan, result, cause, cancelledAtReturn, hpc, epc, ecalls, eres>>
+  /\ UNCHANGED <<att, spc, net, sock, ctxDone, held, doneClosed, sErrChan, result, cause, cancelledAtReturn, hpc, epc, ecalls, eres, retRes, retWhy>>
 
 \* select at the hand-off: case <-s.done   (the connection was closed by Stream's deferred close)
 ReaderSeesDone(a) ==
   /\ rpc[a] = "handoff" /\ doneClosed[a] /\ "readerIgnoresClose" \notin Defects
   /\ ReaderExit(a, "close", FALSE)
-  /\ UNCHANGED <<att, spc, net, sock, ctxDone, held, doneClosed, sErrChan, result, cause, cancelledAtReturn, hpc, epc, ecalls, eres>>
+  /\ UNCHANGED <<att, spc, net, sock, ctxDone, held, doneClosed, sErrChan, result, cause, cancelledAtReturn, hpc, epc, ecalls, eres, retRes, retWhy>>
 
 (***************************************************************************)
 (* Environment.                                                            *)
@@ -225,12 +234,12 @@ ReaderSeesDone(a) ==
 Cancel ==   \* the caller cancels the context of the current attempt (also after Stream returned)
   /\ att > 0 /\ ~ctxDone[att]
   /\ ctxDone' = [ctxDone EXCEPT ![att] = TRUE]
-  /\ UNCHANGED <<att, spc, net, sock, rpc, held, errBuf, errClosed, evClosed, doneClosed, sErrChan, result, cause, terminal, pending, cancelledAtReturn, hpc, epc, ecalls, eres>>
+  /\ UNCHANGED <<att, spc, net, sock, rpc, held, errBuf, errClosed, evClosed, doneClosed, sErrChan, result, cause, terminal, pending, cancelledAtReturn, hpc, epc, ecalls, eres, retRes, retWhy>>
 
 Break ==    \* the master / network drops the connection (close, reset, short packet, bad sequence id)
   /\ att > 0 /\ sock[att] = "open"
   /\ sock' = [sock EXCEPT ![att] = "broken"]
-  /\ UNCHANGED <<att, spc, net, ctxDone, rpc, held, errBuf, errClosed, evClosed, doneClosed, sErrChan, result, cause, terminal, pending, cancelledAtReturn, hpc, epc, ecalls, eres>>
+  /\ UNCHANGED <<att, spc, net, ctxDone, rpc, held, errBuf, errClosed, evClosed, doneClosed, sErrChan, result, cause, terminal, pending, cancelledAtReturn, hpc, epc, ecalls, eres, retRes, retWhy>>
 
 (***************************************************************************)
 (* Error().                                                                *)
@@ -241,6 +250,7 @@ ErrorCall ==
   /\ IF sErrChan = 0 /\ "errChanNil" \notin Defects
      THEN epc' = "idle" /\ eres' = IF ecalls = 0 THEN "nil" ELSE eres
      ELSE epc' = "recv" /\ UNCHANGED eres
+  /\ UNCHANGED <<retRes, retWhy>>
   /\ UNCHANGED <<att, spc, net, sock, ctxDone, rpc, held, errBuf, errClosed, evClosed, doneClosed, sErrChan, result, cause, terminal, pending, cancelledAtReturn, hpc>>
 
 \* case err, ok := <-s.errChan
@@ -258,11 +268,12 @@ ErrorRecv ==
         /\ eres' = IF ecalls = 1 THEN "nil" ELSE eres
         /\ UNCHANGED errBuf
   /\ epc' = "idle"
+  /\ UNCHANGED <<retRes, retWhy>>
   /\ UNCHANGED <<att, spc, net, sock, ctxDone, rpc, held, errClosed, evClosed, doneClosed, sErrChan, result, cause, terminal, pending, cancelledAtReturn, hpc, ecalls>>
 
 Next ==
   \/ Call \/ ConnectOk \/ ConnectFail \/ SendSetOk \/ SendSetFail \/ SendDumpOk \/ SendDumpFail \/ Spawn
-  \/ ParserTakesEvent \/ ParserSeesClosed \/ ParserSeesCtx \/ HandlerOk \/ HandlerErr
+  \/ ParserTakesEvent \/ ParserSeesClosed \/ ParserSeesCtx \/ HandlerOk \/ HandlerErr \/ DeferredClose
   \/ \E a \in Att : ReaderRead(a) \/ ReaderSeesCtx(a) \/ ReaderSeesDone(a) \/ ReaderPublish(a) \/ ReaderCloseErr(a) \/ ReaderCloseEv(a)
   \/ Cancel \/ Break \/ ErrorCall \/ ErrorRecv
 
@@ -271,7 +282,7 @@ Next ==
 LibFair ==
   /\ WF_vars(ConnectOk \/ ConnectFail) /\ WF_vars(SendSetOk \/ SendSetFail) /\ WF_vars(SendDumpOk \/ SendDumpFail)
   /\ WF_vars(Spawn) /\ WF_vars(ParserTakesEvent) /\ WF_vars(ParserSeesClosed) /\ WF_vars(ParserSeesCtx)
-  /\ WF_vars(HandlerOk \/ HandlerErr) /\ WF_vars(ErrorRecv)
+  /\ WF_vars(HandlerOk \/ HandlerErr) /\ WF_vars(ErrorRecv) /\ WF_vars(DeferredClose)
   /\ \A a \in Att : WF_vars(ReaderRead(a)) /\ WF_vars(ReaderSeesCtx(a)) /\ WF_vars(ReaderSeesDone(a))
                     /\ WF_vars(ReaderPublish(a)) /\ WF_vars(ReaderCloseErr(a)) /\ WF_vars(ReaderCloseEv(a))
 
